@@ -14,7 +14,7 @@ if a.returncode != 0:
     print('patch does not apply:', a.stderr[:300]); sys.exit(3)
 try:
     for p in props:
-        r = subprocess.run(['./check', p, 'quick'], cwd='/verif', capture_output=True, text=True)
+        r = subprocess.run(['./check', p, 'quick'], cwd='/verif', capture_output=True, text=True, env=dict(__import__('os').environ, VERIF_EVIDENCE_DIR='/verif/build/seed-evidence'))
         lines = [l for l in r.stdout.split('\n') if l.startswith(('VIOLATION', 'UNDECIDED'))]
         print(f'{p}: exit={r.returncode}', ' | '.join(l[:260] for l in lines[:3]))
 finally:
